@@ -139,7 +139,7 @@ def add_insertion_codes(draw, ch):
         return ch
     nums, codes, k = [], [], 0
     for i in range(n):
-        if i > 0 and draw(st.booleans()):
+        if i > 0 and draw(st.booleans()) and k < 5:  # (codes A-E: a sixth insertion would repeat 'E')
             k += 1
             nums.append(nums[-1])
             codes.append("ABCDE"[min(k - 1, 4)])
